@@ -6,7 +6,7 @@ import json, os, subprocess, sys, shutil
 from concurrent.futures import ThreadPoolExecutor
 
 SEEDED = "/verif/seeded"
-POOL = "/tmp/vs"
+POOL = "/tmp/vs%d" % os.getpid()
 NW = 5
 head = subprocess.run(["git", "-C", "/repo", "rev-parse", "--short", "HEAD"], stdout=subprocess.PIPE, text=True).stdout.strip()
 
